@@ -59,8 +59,11 @@ class C02(Spec):
                 continue
             pairs.append((t, v))
         # size boundaries around 127/128 for strings and lists
-        for ln in (0, 1, 127, 128, 129, 300):
+        # ... and the fragmentation boundary (X.691 11.9.3.8) under the unconstrained length form
+        for ln in (0, 1, 127, 128, 129, 300, 16383, 16384, 16392, 32768, 40000):
             for key in [(-1, -1, False), (-1, -1, True), (0, 65535, False), (0, 3, True)]:
+                if ln > 300 and key[0] == 0 and not (key[2] and q):
+                    continue
                 if not U.in_size(ln, key) and not key[2]:
                     continue
                 pairs.append((("oct", key), ("oct", [(7 * i + 3) % 256 for i in range(ln)])))
